@@ -174,6 +174,7 @@ func c15Match(in c15Input, out string, pos int, groups [][]c15Exp, gi int, rest 
 }
 
 func c15Check(r *vkit.Run, in c15Input) {
+	r.Begin("C15", in)
 	obs := c15Exec(in)
 	r.Eval()
 	var all []c15Exp
